@@ -3,7 +3,7 @@ from props import lifecycle
 
 
 def check(run):
-    return lifecycle.check(run, "C13", ["starttls", "starttls2"])
+    return lifecycle.check(run, "C13", ["starttls", "starttls2", "starttls-adversarial"])
 
 
 def replay(run, path):
